@@ -10,11 +10,13 @@ for mp in sorted(glob.glob(os.path.join(root, "*", "meta.json"))):
     caught = m.get("caught_by", [])
     own_hit = [c for c in caught if c.startswith(own + ":")]
     others = sorted({c.split(":")[0] for c in caught if not c.startswith(own + ":")})
-    rows.append((name, own, m.get("summary", "").replace("|", "/"), m.get("needs", "").replace("|", "/"), ", ".join(own_hit) or "**missed**", ", ".join(others) or "-", m.get("note", "")))
+    base = "" if m.get("applies_to_head", True) else " (patch applies to %s; a later fix: commit rewrote the same lines)" % m.get("applies_to")
+    own_txt = ", ".join(own_hit) or ("not by %s - the change breaks a neighbouring property (DESIGN 7.2): caught by %s" % (own, ", ".join(c for c in caught)) if others else "**missed**")
+    rows.append((name, own, m.get("summary", "").replace("|", "/") + base, m.get("needs", "").replace("|", "/"), own_txt, ", ".join(others) or "-", m.get("note", "")))
 with open(os.path.join(root, "README.md"), "w") as f:
     f.write("# Seeded breakages\n\nEach directory holds `patch.diff` (apply to a scratch worktree of the repository, never to /repo), `demo.py` (exits 0 on the\npristine tree, 1 with the patch) and `meta.json` (what it breaks, what it needs to manifest, what was run, which checks fired).\nAll were written by sub-agents that saw only the text of one property and their own scratch worktree; each was confirmed by\n`tools/seed_process.py` (demo both ways, baseline suite 79/79 with the patch) before being kept.\n\n")
     f.write("| seed | property | change | needs | own check | also caught by |\n|---|---|---|---|---|---|\n")
     for r in rows:
         f.write("| %s | %s | %s | %s | %s | %s |\n" % r[:6])
-    f.write("\n%d seeds; %d caught by the check of the property they break.\n" % (len(rows), sum(1 for r in rows if "missed" not in r[4])))
+    f.write("\n%d seeds; %d caught by the check of the property they break.\n" % (len(rows), sum(1 for r in rows if "missed" not in r[4] and not r[4].startswith("not by"))))
 print(open(os.path.join(root, "README.md")).read()[-1500:])
